@@ -229,6 +229,22 @@ theorem scale_factors_ne {q : SedovShock.P} {k : ℕ} (A : Admissible q k) {t : 
   exact ⟨(mul_pos hrho2 hq).ne', (mul_pos hu2 hq).ne',
     (mul_pos (div_pos (div_pos hp2 (by linarith)) hrho2) hq).ne'⟩
 
+/-- similarity functions that solve the ODE system at λ > 0 give fields that solve the Euler
+equations at r = λ r2(t), for every t > 0 -/
+theorem euler_of_solvesAt {q : SedovShock.P} {k : ℕ} (A : Admissible q k) (f g h : ℝ → ℝ) {lam t : ℝ}
+    (hS : SolvesAt q.gamma q.geometry q.omega f g h lam) (hlam : 0 < lam) (hg0 : g lam ≠ 0) (ht : 0 < t) :
+    massRes (ρF q g) (uF q f) (q.geometry - 1) (lam * SedovShock.r2 q t) t = 0 ∧
+    momResP (ρF q g) (uF q f) (pF q h) (lam * SedovShock.r2 q t) t = 0 ∧
+    energyResE (ρF q g) (uF q f) (pF q h) (eF q g h) (q.geometry - 1) (lam * SedovShock.r2 q t) t = 0 := by
+  obtain ⟨f', g', h', hf, hg, hh, hm, hp, he⟩ := hS
+  have hRpos := r2_pos A ht
+  have hr : lam * SedovShock.r2 q t / SedovShock.r2 q t = lam := by field_simp
+  have key := euler_of_similarity A f g h (f' := f') (g' := g') (h' := h') (r := lam * SedovShock.r2 q t) ht
+    (mul_pos hlam hRpos) (by rw [hr]; exact hf) (by rw [hr]; exact hg) (by rw [hr]; exact hh) (by rw [hr]; exact hg0)
+  rw [hr] at key
+  obtain ⟨k1, k2, k3⟩ := key
+  exact ⟨by rw [k1, hm, mul_zero], by rw [k2, hp, mul_zero], by rw [k3, he, mul_zero]⟩
+
 end
 
 end EPV.Sedov
